@@ -54,6 +54,24 @@ CLAIMED.update({
    note="State is initial config + accepted change events, so unchanged state equals no accepted change event. ASA terminal width is a session setting."),
 })
 
+CLAIMED.update({
+ "C12": dict(
+   category="fault_enumeration", design="DESIGN.md §3 C12",
+   technique="runtime monitoring with schedule control (build-tag gates, simulator parking, SIGKILL) + porcupine linearizability check of the recorded lock history",
+   text="The product holder (4 kinds) x phase (after-lock, login, config read, mid-apply, save, before status write) x contender (6 spellings/front-ends) x {1,3 contenders} x {release, SIGKILL} on two device types is executed (thorough: all 864 schedules, quick: 1-in-5); contenders must exit 1 with 'Approve in progress', open no simulator session and change no status/history/log file while the holder is parked, a later run must get the lock; ungated stress rounds of 8 simultaneous runs check session events for interleaving and the lock history with porcupine.",
+   note="Crash = SIGKILL; kernel flock semantics are trusted. Gates are the verif-tagged verifhook.Point calls right after SetLock and before status.Set*."),
+ "C15": dict(
+   category="fault_enumeration", design="DESIGN.md §3 C15",
+   technique="runtime monitoring: IOS simulator with reload state machine injecting asynchronous banners at enumerated positions/forms/chunkings; transcript ordering invariants + outcome equality with the banner-free run",
+   text="23 IOS change scripts x every received line of the guarded window x banner form (before echo with own prompt, inside echo at 3 offsets, after echo without / with own prompt, after the regular prompt) x kind (2:00, 1:00, ABORTED placement) x 3 write chunkings (~7000 live runs thorough, 1-in-8 quick): every change inside the armed window, write memory only after cancel and without rejected change, nothing pending after success, same exit status and change sequence as without banner, re-arm after a 1:00 banner.",
+   note="Only banner forms the device is known to produce; the simulated router never actually reloads; a banner with own prompt between echo and output of 'configure terminal' is not generated."),
+ "C17": dict(
+   category="exploration", design="DESIGN.md §3 C17",
+   technique="runtime monitoring: byte scan of every file, stdout and stderr written by live runs with unique random secrets, under success and injected failures",
+   text="Live runs for all device types, both front-ends, approve and compare, three secret alphabets, success plus failures of every kind at the first 8, one middle and the last 3 dialogue positions; all files below basedir and the log directory, stdout and stderr are scanned for password, API key, xsrf token and session cookie in plain, query-/path-escaped, lower-hex-escaped, unescaped and unpadded spelling.",
+   note="Simulated devices do not echo passwords; device-issued keys are alphanumeric with '=' padding; passwords contain no white space."),
+})
+
 PENDING = {
 }
 
